@@ -20,7 +20,7 @@ EXPLANATION = (
     "remove_enter_idle return a bool on every path, with both outcomes present; (5) SIB: the select and zmq loops (same state machine) agree on guards, helpers and results."
     ' Added after seed round 3: (7) a registry whose stored values are int parameters (file descriptors) is queried with `in` / `is not None`, never by the truthiness of the stored value.'
     " Round 4: the Twisted wrapper catches BaseException (the reactor swallows everything else); (8) self-made registry handles come from a counter, never from the registry's size; (9) the Twisted idle timer callback lowers its flag on every normal path."
-    " Round-4 triage: (10) an idle pass calls a callback only while it is still registered; (11) a dispatch batch (select, zmq) calls a watch only while it is still the registered one; (12) twisted's doRead returns nothing; (13) the zmq poll time-out is rounded up and an empty poller sleeps; (5, restated) select / zmq dispatch an alarm after a time-out or under an explicit due test, and do not require `not ready` (no starvation); (14) fdopen()/open() of a descriptor parameter passes closefd=False (the descriptor stays its caller's); (1, extended) the tornado wrapper catches BaseException like the twisted one (asyncio re-raises only SystemExit / KeyboardInterrupt itself); (15) every loop forgets an alarm - in the terms its remove_alarm() consults - before the callback runs; (16) a loop with a watch table plus per-watch objects registered with its host unregisters the old object when a descriptor is watched again. Round-5 triage: (1, sharpened) a handler in run() of select / zmq swallows unless its body ends in an unconditional raise (zmq's `if errno != EINTR: raise` around the whole iteration is reported); (3, extended) run() of select / zmq raises _did_something before the first iteration."
+    " Round-4 triage: (10) an idle pass calls a callback only while it is still registered; (11) a dispatch batch (select, zmq) calls a watch only while it is still the registered one; (12) twisted's doRead returns nothing; (13) the zmq poll time-out is rounded up and an empty poller sleeps; (5, restated) select / zmq dispatch an alarm after a time-out or under an explicit due test, and do not require `not ready` (no starvation); (14) fdopen()/open() of a descriptor parameter passes closefd=False (the descriptor stays its caller's); (1, extended) the tornado wrapper catches BaseException like the twisted one (asyncio re-raises only SystemExit / KeyboardInterrupt itself); (15) every loop forgets an alarm - in the terms its remove_alarm() consults - before the callback runs; (16) a loop with a watch table plus per-watch objects registered with its host unregisters the old object when a descriptor is watched again. Round-5 triage: (1, sharpened) a handler in run() of select / zmq swallows unless its body ends in an unconditional raise (zmq's `if errno != EINTR: raise` around the whole iteration is reported); (3, extended) run() of select / zmq raises _did_something before the first iteration; (17) TrioEventLoop._cancel_scope forgets a never-started task before it touches the trio scope."
 )
 NOT_DECIDED = "Exactly-once, not-before-due and due-order of alarms, watch repetition, idle-before-quiescence under all interleavings - scheduler semantics under time."
 ASSUMPTIONS = ["The behaviour of the foreign scheduling APIs on a raising callable (log and continue) is taken from their documentation and recorded in the per-class table."]
@@ -309,7 +309,8 @@ def rule_remove_returns(ctx: Ctx) -> RuleResult:
     t = p.func(LOOPS["trio"] + "._cancel_scope")
     rr.inst("trio._cancel_scope", True)
     rets = [n for n in t.own_nodes() if isinstance(n, ast.Return)]
-    if not rets or not all(isinstance(r.value, ast.Name) for r in rets):
+    # a name (the liveness read before cancelling) or a boolean constant (pending task forgotten / run is over)
+    if not rets or not all(isinstance(r.value, ast.Name) or (isinstance(r.value, ast.Constant) and isinstance(r.value.value, bool)) for r in rets) or not any(isinstance(r.value, ast.Name) for r in rets):
         rr.add(finding("RET", t, t.node, "_cancel_scope no longer returns whether the scope was still live", construct="_cancel_scope return"))
     return rr
 
@@ -726,8 +727,34 @@ def rule_rewatch_replaces(ctx: Ctx) -> RuleResult:
     return rr
 
 
+def rule_trio_pending(ctx: Ctx) -> RuleResult:
+    """TrioEventLoop creates alarm / watch tasks lazily: before run() (no nursery yet) they only sit in
+    `_pending_tasks`.  Removing such a handle must not go to the trio cancel scope - outside of a running trio loop
+    `scope.cancel_called` / `scope.cancel()` raise RuntimeError, and the pending task would still be started later,
+    i.e. a removed alarm runs.  _cancel_scope() therefore first looks the scope up among the pending tasks (and
+    forgets it there), and only then - under a RuntimeError handler - asks the scope."""
+    p = ctx.p
+    rr = RuleResult("PASS", "C13.17", "TrioEventLoop._cancel_scope forgets a task that was never started before it touches the trio scope (which it does under a RuntimeError handler)", floor=1)
+    fi = p.func(LOOPS["trio"] + "._cancel_scope")
+    cfg = cfg_of(fi)
+    prm = fi.params[1]
+    touch = nodes_where(cfg, lambda x: isinstance(x, ast.Attribute) and x.attr in ("cancel", "cancel_called") and isinstance(x.value, ast.Name) and x.value.id == prm)
+    loops = [h for h in cfg.nodes if h.kind == "for" and "_pending_tasks" in ast.unparse(h.ast.iter)]
+    forget = [n for n in cfg.nodes if isinstance(n.ast, ast.Delete) and "_pending_tasks" in ast.unparse(n.ast)] + nodes_where(cfg, lambda x: isinstance(x, ast.Call) and isinstance(x.func, ast.Attribute) and x.func.attr in ("remove", "pop") and "_pending_tasks" in ast.unparse(x.func.value))
+    guarded = all(any(lab == "e" and t.kind == "handler" and t.ast.type is not None and "RuntimeError" in ast.unparse(t.ast.type) for t, lab in n.succ) for n in touch) if touch else False
+    ok = bool(touch) and bool(loops) and bool(forget) and all(cfg.dominated(n, loops) for n in touch)
+    rr.inst("_cancel_scope", True, {"pending_lookup": bool(loops), "forgets_pending_task": bool(forget), "scope_touched_under_RuntimeError_handler": guarded})
+    if not touch:
+        raise AnalysisError("TrioEventLoop._cancel_scope: the use of the scope (cancel / cancel_called) was not found")
+    if not ok:
+        rr.add(finding("PASS", fi, touch[0].stmt, f"`{norm(touch[0].stmt, 50)}` is reached without the scope having been looked up (and forgotten) among self._pending_tasks: a handle removed before run() raises RuntimeError('must be called from async context') and its task is still started when the loop runs - a removed alarm fires", construct="pending task not forgotten before the scope is touched"))
+    elif not guarded:
+        rr.add(finding("PASS", fi, touch[0].stmt, f"`{norm(touch[0].stmt, 50)}` touches the trio scope without a RuntimeError handler: a handle left over from a run that is over (MainLoop re-run after an exception) raises 'must be called from async context' out of remove_alarm / remove_watch_file", construct="scope touched without RuntimeError handler"))
+    return rr
+
+
 def run(ctx: Ctx):
-    return [rule_wrap(ctx), rule_snap(ctx), rule_idle_arming(ctx), rule_remove_returns(ctx), rule_select_zmq(ctx), rule_trio_checkpoint(ctx), rule_presence(ctx), rule_handle_unique(ctx), rule_twisted_idle_flag(ctx), rule_idle_removed(ctx), rule_batch_dispatch(ctx), rule_doread_result(ctx), rule_zmq_wait(ctx), rule_descriptor_ownership(ctx), rule_fired_alarm_forgotten(ctx), rule_rewatch_replaces(ctx)]
+    return [rule_wrap(ctx), rule_snap(ctx), rule_idle_arming(ctx), rule_remove_returns(ctx), rule_select_zmq(ctx), rule_trio_checkpoint(ctx), rule_presence(ctx), rule_handle_unique(ctx), rule_twisted_idle_flag(ctx), rule_idle_removed(ctx), rule_batch_dispatch(ctx), rule_doread_result(ctx), rule_zmq_wait(ctx), rule_descriptor_ownership(ctx), rule_fired_alarm_forgotten(ctx), rule_rewatch_replaces(ctx), rule_trio_pending(ctx)]
 
 
 from ..mutants import Mut  # noqa: E402
@@ -735,6 +762,7 @@ from ..mutants import Mut  # noqa: E402
 _S = "urwid/event_loop/select_loop.py"
 _A = "urwid/event_loop/asyncio_loop.py"
 MUTANTS = [
+    Mut("trio-cancel-pending-task-through-scope", "urwid/event_loop/trio_loop.py", "TrioEventLoop._cancel_scope", "        for index, (_task, pending_scope, _args) in enumerate(self._pending_tasks):\n            if pending_scope is scope:\n                # not started yet (no nursery): there is nothing to cancel, just forget the task\n                del self._pending_tasks[index]\n                return True\n", "", "PASS|event_loop.trio_loop.TrioEventLoop._cancel_scope"),
     Mut("zmq-run-does-not-arm-idle", "urwid/event_loop/zmq_loop.py", "ZMQEventLoop.run", "            self._did_something = True\n", "", "PASS|event_loop.zmq_loop.ZMQEventLoop.run"),
     Mut("zmq-run-swallows-callback-eintr", "urwid/event_loop/zmq_loop.py", "ZMQEventLoop.run", "            while True:\n                self._loop()\n", "            while True:\n                try:\n                    self._loop()\n                except zmq.error.ZMQError as exc:\n                    if exc.errno != errno.EINTR:\n                        raise\n", "WRAP|event_loop.zmq_loop.ZMQEventLoop.run"),
     Mut("asyncio-arms-idle-only-with-listeners", _A, "AsyncioEventLoop._also_call_idle", "            if not self._idle_asyncio_handle:", "            if self._idle_callbacks and not self._idle_asyncio_handle:", "PASS|event_loop.asyncio_loop.AsyncioEventLoop._also_call_idle"),
